@@ -37,7 +37,12 @@ type scSpec struct {
 	// Concurrent: after the sequence, two overlapping requests (the first one
 	// a scale-down of slow-to-die replicas)
 	Concurrent []int `json:"concurrent,omitempty"`
-	SigMs      int   `json:"sig_ms,omitempty"`
+	// WorkDir: "" none | "static" a fixed directory | "tpl" one directory per replica number
+	WorkDir string `json:"work_dir,omitempty"`
+	// Early: the first request is issued right after Run() began, without
+	// waiting for the initial replicas
+	Early bool `json:"early,omitempty"`
+	SigMs int  `json:"sig_ms,omitempty"`
 }
 
 func (sp *scSpec) yaml(worldID, replicas int, dir string) string {
@@ -78,6 +83,12 @@ func (sp *scSpec) yaml(worldID, replicas int, dir string) string {
 	}
 	if sp.LogLoc {
 		fmt.Fprintf(&b, "    log_location: %s\n", yq(dir+"/sc-{{.PC_REPLICA_NUM}}.log"))
+	}
+	switch sp.WorkDir {
+	case "static":
+		fmt.Fprintf(&b, "    working_dir: %s\n", yq(dir))
+	case "tpl":
+		fmt.Fprintf(&b, "    working_dir: %s\n", yq(dir+"/wd{{.PC_REPLICA_NUM}}"))
 	}
 	if len(sp.Vars) > 0 {
 		b.WriteString("    vars:\n")
@@ -139,6 +150,10 @@ func genScSpec(rng *rand.Rand, i int) scSpec {
 	if i%10 == 3 {
 		sp.Restarting = true
 	}
+	sp.WorkDir = []string{"", "", "static", "tpl"}[rng.Intn(4)]
+	if i%10 == 1 {
+		sp.Early = true
+	}
 	if i%10 == 8 && cur >= 2 {
 		// overlapping pair: a scale-down of slow-to-die replicas, then another request
 		sp.SigMs = 40 + rng.Intn(50)
@@ -193,6 +208,11 @@ func runScale(c fw.Case) fw.Result {
 		return r
 	}
 	defer os.RemoveAll(dir)
+	if sp.WorkDir == "tpl" {
+		for k := 0; k <= 101; k++ {
+			_ = os.Mkdir(fmt.Sprintf("%s/wd%d", dir, k), 0o755)
+		}
+	}
 	env, err := sim.NewEnv(w, sp.yaml(w.ID, sp.Initial, dir), sim.EnvOpts{})
 	if err != nil {
 		r.Inconclusive = err.Error()
@@ -241,7 +261,9 @@ func runScale(c fw.Case) fw.Result {
 			return r
 		}
 	}
-	if !waitAlive(sp.Initial) {
+	if sp.Early && !sp.Restarting && !sp.Short {
+		// the first request races Run()'s start-up loop
+	} else if !waitAlive(sp.Initial) {
 		r.Inconclusive = "initial replicas did not come up"
 		r.Dirty = true
 		return r
@@ -415,6 +437,9 @@ func runScale(c fw.Case) fw.Result {
 				if rp, ok := ref.Processes[e.Proc]; ok && len(e.Argv) > 0 && e.Argv[len(e.Argv)-1] != rp.Command {
 					fail("launch-command", "step %d: %s launched with %q, a fresh load renders %q", step, e.Proc, e.Argv[len(e.Argv)-1], rp.Command)
 				}
+				if rp, ok := ref.Processes[e.Proc]; ok && e.Dir != rp.WorkingDir {
+					fail("launch-dir", "step %d: %s launched in %q, a fresh load renders working_dir %q", step, e.Proc, e.Dir, rp.WorkingDir)
+				}
 			case e.Kind == sim.EvSignal:
 				signals++
 			}
@@ -432,13 +457,47 @@ func runScale(c fw.Case) fw.Result {
 			}
 			continue
 		}
+		racy := sp.Early && step == 0 && !sp.Short && !sp.Restarting
+		if racy {
+			// the request raced the start-up loop: who launched what is not
+			// attributable; the resulting set, configurations and states are
+			launches, signals = added, removed
+		}
+		// names that no longer exist must not be answered by anybody
+		wantSet := map[string]bool{}
+		for _, n := range scNames(want) {
+			wantSet[n] = true
+		}
+		for k, old := range scNames(cur) {
+			// only survivors that were renamed (name width changed): a removed
+			// replica may still be unregistering itself
+			if wantSet[old] || k >= want || sp.Short || sp.Restarting {
+				continue
+			}
+			nb := len(w.Events())
+			err := env.Runner.StopProcess(old)
+			sig := 0
+			for _, e := range w.Events()[nb:] {
+				if e.Kind == sim.EvSignal {
+					sig++
+				}
+			}
+			r.Count("stale_names_checked", 1)
+			if err == nil || sig > 0 {
+				fail("stale-name-answered", "step %d (scale %d -> %d): %s is not a replica any more, yet StopProcess(%s) returned %v and %d stop signals were sent", step, cur, target, old, old, err, sig)
+			}
+			if _, err := env.Runner.GetProcessState(old); err == nil {
+				fail("stale-name-answered", "step %d (scale %d -> %d): GetProcessState(%s) still answers although %s is not a replica any more", step, cur, target, old, old)
+			}
+			break // one stale name per step is enough
+		}
 		if launches != added {
 			fail("survivors-disturbed-or-not-launched", "step %d (scale %d -> %d): %d launches observed, expected %d (survivors must not be restarted, added replicas must be launched)", step, cur, target, launches, added)
 		}
 		if !sp.Short && (signals < removed || (removed == 0 && signals > 0)) {
 			fail("signals", "step %d (scale %d -> %d): %d stop signals observed, expected %d removed replicas to be signalled and nobody else", step, cur, target, signals, removed)
 		}
-		if byEvents > 0 {
+		if byEvents > 0 && !racy {
 			fail("bystander-disturbed", "step %d: the unrelated process 'by' was touched by the scale request", step)
 		}
 		cur = want
@@ -490,7 +549,7 @@ func runScale(c fw.Case) fw.Result {
 				if n < 1 || strings.Join(listed, ",") != strings.Join(wn, ",") {
 					continue
 				}
-				ok = w.WaitFor(3*time.Second, func(v *sim.WorldView) bool { return v.AliveTotal() == n+1 })
+				ok = w.WaitFor(8*time.Second, func(v *sim.WorldView) bool { return v.AliveTotal() == n+1 })
 				for _, nm := range wn {
 					if info, err := env.Runner.GetProcessInfo(nm); err != nil || info.Replicas != n {
 						ok = false
